@@ -386,6 +386,23 @@ def aligned_specs():
                     t += 1
                 blocks[which]["al"] = al
                 out.append(scen.spec_of(blocks))
+    # fixed-width ISAs: the padding is made of whole 4-byte nops whose bytes come from the reference table (vf/world/isa.py)
+    for target in ("arm64-elf", "mips32-elf"):
+        isa_ = Lg.isamod.TARGETS[target][0]
+        for al in (8, 16):
+            for which in (1, 2):
+                blocks = []
+                for j in range(3):
+                    nm = scen.NAMES[j]
+                    blocks.append(scen.code_block(nm, [10 * (j + 1), 10 * (j + 1) + 1], ["ret"] if j == 2 and target != "mips32-elf" else None, f="f", e=(j == 0)))
+                pos = sum(isa_.size(tuple(i)) for b in blocks[:which] for i in b["i"])
+                t = 100
+                while pos % al:
+                    blocks[which - 1]["i"].append(["o", t])
+                    pos += isa_.size(("o", t))
+                    t += 1
+                blocks[which]["al"] = al
+                out.append(scen.spec_of(blocks, target=target))
     # modules whose alignment table exists but is empty (or absent): only a patch brings a requirement in
     for kinds in (("c", "c", "c"), ("c", "d", "c")):
         for table in ("empty", "absent"):
@@ -446,17 +463,18 @@ def check_alignment(spec, mods):
         e, o = E.bytes[sn], O.bytes.get(sn, b"")
         # positions (in e) where padding may be inserted: starts of aligned blocks
         starts = sorted(p for (s2, p) in E.align if s2 == sn)
+        nop = Lg.isamod.TARGETS[spec["target"]][0].nop
         i = j = 0
         ok = True
         padded = 0
         while i < len(e) or j < len(o):
             if i in starts and j < len(o) and (i >= len(e) or o[j] != e[i] or True):
-                # consume padding bytes until the address is aligned
+                # consume padding until the address is aligned: whole nops of this ISA (or zero bytes, after data)
                 a = E.align[(sn, i)]
                 base = Lg.SEC_BASE[sn]
-                while (base + j) % a and j < len(o) and o[j] in (0x90, 0x00):
-                    j += 1
-                    padded += 1
+                while (base + j) % a and j < len(o) and (o[j : j + len(nop)] == nop or (len(nop) == 1 and o[j] == 0x00)):
+                    j += len(nop)
+                    padded += len(nop)
                 starts = [s3 for s3 in starts if s3 != i]
                 continue
             if i < len(e) and j < len(o) and e[i] == o[j]:
@@ -477,9 +495,10 @@ def align_atoms(spec):
             n = len(b["i"])
             for k in range(n + 1):
                 out.append({"op": "ins", "b": b["n"], "k": k, "p": P_ORD if b["k"] == "c" else {"bytes": [0]}})
-                if b["k"] == "c" and k in (0, n):
+                x64 = spec["target"].startswith("x64")  # (.align N means 2^N on the fixed-width targets)
+                if x64 and b["k"] == "c" and k in (0, n):
                     out.append({"op": "ins", "b": b["n"], "k": k, "p": P_ALIGN})
-                if b["k"] == "c" and k == 0:
+                if x64 and b["k"] == "c" and k == 0:
                     out.append({"op": "ins", "b": b["n"], "k": k, "p": P_ALIGN_HEAD})
             for k in range(n):
                 out.append({"op": "del", "b": b["n"], "k": k, "n": 1})
